@@ -256,8 +256,12 @@ class CheckingReporter(object):
 def real_runs(mon, lab, rng, n, tier):
     for i in range(n):
         gen = {"outcomes": OUTCOMES + ["abort"], "weights": {"abort": 0.3}} if i % 5 == 0 else {}
-        gen["p_empty_examples"] = 0.0
         gen["p_stepless"] = 0.0     # childless scenarios are out of scope and would poison their parents
+        if i % 3 == 0:
+            # header-only Examples sections next to sections with rows (the outline as a whole is not childless)
+            gen.update({"p_empty_examples": 0.4, "max_examples": 3, "outline_min_rows": 1, "p_outline": 0.5})
+        else:
+            gen["p_empty_examples"] = 0.0
         case = RB.gen_case(rng, gen=gen, p_stop=0.3, p_dry=0.15, p_user_skip=0.1)
         ref = {"case": case}
         rep = CheckingReporter(mon, lab, ref)
